@@ -503,8 +503,9 @@ def mutate_archive(seed, muts):
             off, size = mem[i % len(mem)]
             if size > 64:
                 pos = off + 60 + [0, 4, 5, 16, 18, 40, 58, 60, 62][f % 9]
-                data[pos] = [0, 0xff, 1, 2][val % 4]
-                labels.append("ar.member-ehdr")
+                if pos < len(data):     # thin archives: member sizes describe external files
+                    data[pos] = [0, 0xff, 1, 2][val % 4]
+                    labels.append("ar.member-ehdr")
     out = bytes(data if trunc is None else data[:max(0, trunc)])
     return out, labels
 
